@@ -19,7 +19,7 @@ from ..hdl.nir import _fit
 
 PROP = "C15"
 LEVEL = "other"
-CLAUSES = ["ack_next", "ack_reset", "mem_next", "read_data", "read_data_from_reset", "init_image"]
+CLAUSES = ["geometry_as_configured", "ack_next", "ack_reset", "mem_next", "read_data", "read_data_from_reset", "init_image"]
 PAIRS = [(8, 8), (16, 8), (16, 16), (32, 8), (32, 16), (32, 32), (64, 8), (64, 16), (64, 32), (64, 64)]
 
 
@@ -80,6 +80,16 @@ def check_config(ctx, cfg):
     msv = mems[0]
     ctx.nontrivial = msv.depth >= 2
     one, zero = z3.BitVecVal(1, 1), z3.BitVecVal(0, 1)
+    # the geometry comes from the CONFIGURATION: size*granularity/data_width rows of data_width bits, a bus that addresses exactly those
+    # rows, a memory map of `size` granules holding the memory as its only resource (the clauses below use the component's own widths)
+    from amaranth_soc import wishbone as _wb
+    rows = cfg["size"] * g // dw
+    mm = wb.memory_map
+    res_ = list(mm.resources())
+    geometry_ok = (msv.depth == rows and msv.width == dw and wb.signature == _wb.Signature(addr_width=(rows - 1).bit_length(), data_width=dw, granularity=g)
+                   and mm.data_width == g and 1 << mm.addr_width == cfg["size"] and len(res_) == 1 and tuple(res_[0][2]) == (0, cfg["size"])
+                   and not list(mm.windows()) and s.size == cfg["size"] and s.writable == bool(cfg["writable"]))
+    ctx.prove("geometry_as_configured", z3.BoolVal(bool(geometry_ok)))
     f0 = nl.frame("0"); f1 = nl.frame("1", prev=f0); fr = nl.frame("r", state=nl.reset_state())
     ack0 = f0.val(wb.ack)
     cyc, stb, we = f0.inp(wb.cyc), f0.inp(wb.stb), f0.inp(wb.we)
